@@ -844,10 +844,11 @@ func (h *handler1) handleMqttSn(ctx context.Context, pkt snPkts.Packet) error {
 			}
 			h.pktBuffer = nil
 			m2 := snPkts1.NewDisconnect(0)
-			if err := h.snSend(m2); err != nil {
+			// The reply must never be queued: the client retransmits its
+			// DISCONNECT if the reply gets lost and we are asleep already then.
+			if err := h.snSendNow(m2); err != nil {
 				return err
 			}
-			// Must be set after snSend otherwise the packet will be queued...
 			h.setState(util.StateAsleep)
 			return nil
 		}
@@ -924,6 +925,11 @@ func (h *handler1) snSend(pkt snPkts.Packet) error {
 		// TODO: Potentional serialization errors will be delayed!
 		return nil
 	}
+	return h.snSendNow(pkt)
+}
+
+// snSendNow sends the packet to the client even if the client is asleep.
+func (h *handler1) snSendNow(pkt snPkts.Packet) error {
 	h.log.Debug("<- %v", pkt)
 	buf, err := pkt.Pack()
 	if err != nil {
